@@ -1379,6 +1379,8 @@ def main(tier, replay=None):
     # cases that ran out of random draws get a long deterministic continuation of their stream (same on both sides); when
     # the second run does not complete (tooling time-out) the case keeps its first stream and stays inconclusive
     retry = [i for i in range(len(cases)) if iout[i].startswith("EXHAUSTED")]
+    nhang = sum(1 for l in iout if l.startswith(("HANG", "CRASH")))
+    retry = retry[:(400 if tier != "quick" else 80) if not nhang else 10]      # the others stay on their first stream (inconclusive unless the model returns)
     if retry:
         saved = dict((i, cases[i].stream) for i in retry)
         for i in retry:
@@ -1575,7 +1577,8 @@ def run_isolated(himpl, cases, wall=900, cpu=90):
     rest = [i for i in range(len(cases)) if out[i] is None]
     stops = walls = 0
     while rest:
-        st, lines = run_proc(himpl, "".join(cases[i].line() + "\n" for i in rest), wall, cpu)
+        # once a loop or crash has been seen the verdict is settled: the remaining cases get a smaller CPU budget
+        st, lines = run_proc(himpl, "".join(cases[i].line() + "\n" for i in rest), wall, cpu if stops == 0 else max(10, cpu // 4))
         lines = [l for l in lines if re.search(r"#\d+\s*$", l)]          # drop a partial last line
         for i, l in zip(rest, lines):
             out[i] = l
@@ -1589,10 +1592,10 @@ def run_isolated(himpl, cases, wall=900, cpu=90):
                     out[i] = "TIMEOUT"
                 break
             continue
-        out[rest[len(lines)]] = "HANG (CPU-time limit of %d s)" % cpu if st == "cpu" else "CRASH %s" % st
+        out[rest[len(lines)]] = "HANG (CPU-time limit of %d s)" % (cpu if stops == 0 else max(10, cpu // 4)) if st == "cpu" else "CRASH %s" % st
         rest = rest[len(lines) + 1:]
         stops += 1
-        if stops >= 4:
+        if stops >= 3:
             for i in rest:
                 out[i] = "SKIPPED"
             break
